@@ -29,12 +29,25 @@ SPILLQ = [
 ]
 
 
+def known_key(run, node, k):
+    _, p, f, idx = k
+    m = re.search(r"join_type=(\w+)", node.get("detail", ""))
+    if (node["name"] == "PiecewiseMergeJoinExec" and f in ("output_rows", "part_rows", "analyze_rows") and m
+            and m.group(1) in ("Inner", "Left", "Right", "Full") and node["metrics"]["rows"] == 0):
+        return "piecewise-merge-join-classic-stream-never-records-output-rows"
+    return None
+
+
 def attach(runs, spill):
     """Run-level events for the specification + their direct re-check."""
     for r in runs:
         if r["status"] != "ok":
             continue
         r["spill"] = []
+        for n in r["nodes"]:
+            m = n["metrics"]
+            if m["spills"] >= 0 and m["spilled"] >= 0 and ((m["spills"] > 0) != (m["spilled"] > 0)):
+                r["rust_bad"]["C53"].append({"n": n["id"], "p": -1, "f": "spill_consistency", "k": 0})
         for a in r.get("analyze", []):
             if a["full"] and a["has"] and a["rv"] != a["emitted"]:
                 r["rust_bad"]["C53"].append({"n": a["id"], "p": -1, "f": "analyze_rows", "k": 0})
@@ -49,7 +62,7 @@ def attach(runs, spill):
         if h["spill_count"] != sum(1 for f in h["files"] if f["some"]):
             bad.append({"n": 0, "p": -1, "f": "spill_count", "k": 0})
         node = {"id": 0, "parent": -1, "name": "SpillManager", "detail": "SpillManager history", "np": 1, "full": False,
-                "metrics": {"has": False, "rows": 0, "per": [], "spilled": h["spilled_rows"], "spills": h["spill_count"]},
+                "metrics": {"has": False, "rows": 0, "per": [], "spilled": -1, "spills": -1},
                 "streams": [], "ords": [], "outord": [], "classes": [], "consts": [], "part": "", "exprs": [], "schema": [], "stats": [],
                 "hash": [], "uneval": [], "fns": []}
         out.append({"id": h["id"], "cfg": "spill-api", "status": "ok", "inert": True, "has_fetch": False, "plan": "SpillManager history",
@@ -68,27 +81,41 @@ def run(ctx):
         runs, _ = contract.record(ctx, [line])
         meta = {line["id"]: {"sql": line["sql"], "tables": line["tables"], "cfg": line["cfg"]["name"], "case": None}}
         attach(runs, [])
-        res = contract.judge(ctx, "C53", runs, meta)
+        res = contract.judge(ctx, "C53", runs, meta, known_key=known_key)
         write_evidence(ctx, "exploration", {"evaluations": 1, "distinct_nontrivial": 2, "rule": "replay of one recorded run",
                                             "samples": [{"sql": line["sql"]}], **res})
         return
     cfgs = QUICK_CFG if ctx.quick else ALL_CFG
     lines, meta, tlcruns = contract.build_runs(ctx, n_tlc=50 if ctx.quick else 400, n_big=1 if ctx.quick else 6, configs=cfgs,
-                                               corpus=1 if ctx.quick else 3, extra_corpus=SPILLQ,
+                                               corpus=1 if ctx.quick else 3, extra_corpus=SPILLQ, corpus_tlc_db=not ctx.quick, corpus_cfgs=3 if ctx.quick else None,
                                                gens=None if ctx.quick else [(2, 2, ctx.seed), (3, 2, ctx.seed + 1000), (4, 1, ctx.seed + 2000)])
-    # larger tables for the bounded-memory configuration, so that operators really spill
+    # high-cardinality tables under a bounded memory pool, so that sort / aggregate / sort-merge join / repartition really spill
     rng = __import__("random").Random(ctx.seed + 99)
-    bigdb = contract.big_tables(rng, 6000)
-    for qi, sql in enumerate(SPILLQ + contract.CORPUS[7:9]):
-        for lim, resv in ((100000, 65536), (100000, 16384), (200000, 65536)):
-            rid = f"spillq{qi}/L1-{lim}-{resv}"
-            cfg = dict(name="L1", partitions=1, batch_rows=512, memory_limit=lim,
-                       settings=[[contract.TP, "1"], [contract.BS, "512"], ["datafusion.execution.sort_spill_reservation_bytes", str(resv)],
-                                 ["datafusion.execution.sort_in_place_threshold_bytes", "0"]])
-            lines.append({"id": rid, "sql": sql, "tables": bigdb, "cfg": cfg})
-            meta[rid] = {"case": None, "cfg": "L1", "sql": sql, "src": "spill-queries", "tables": bigdb}
+    N = 6000
+    ids = list(range(N))
+    rng.shuffle(ids)
+    II = lambda v: {"k": "i", "v": v}
+    spilldb = [
+        {"name": "t1", "cols": [{"name": "c1", "kind": "i"}, {"name": "c2", "kind": "i"}, {"name": "c3", "kind": "s"}],
+         "rows": [[II(i), II(i % 50), {"k": "s", "v": 1 + i % 3}] for i in ids]},
+        {"name": "t2", "cols": [{"name": "c1", "kind": "i"}, {"name": "c2", "kind": "i"}], "rows": [[II(i % (N // 4)), II(i)] for i in ids]},
+        {"name": "t3", "cols": [{"name": "c1", "kind": "i"}, {"name": "c2", "kind": "s"}, {"name": "c3", "kind": "b"}],
+         "rows": [[II(i), {"k": "s", "v": 1}, {"k": "b", "v": 1}] for i in range(200)]}]
+    SPILL = {"sort": ("SELECT c1, c2, c3 FROM t1 ORDER BY c3 ASC NULLS LAST, c1 DESC NULLS FIRST", [(40000, 1), (80000, 1), (150000, 1)], "true"),
+             "agg": ("SELECT c1, count(*) AS n, sum(c2) AS s FROM t1 GROUP BY c1", [(300000, 1), (300000, 2), (400000, 2)], "true"),
+             "smj": ("SELECT a.c1, a.c2, b.c2 AS d FROM t2 a JOIN t2 b ON a.c1 = b.c1", [(300000, 2), (350000, 2), (400000, 2)], "false"),
+             "sortlimit": ("SELECT c1, c2 FROM t1 ORDER BY c2 ASC NULLS LAST, c1 ASC NULLS LAST LIMIT 5000", [(60000, 1)], "true")}
+    for q, (sql, variants, phj) in SPILL.items():
+        for (lim, tp) in variants:
+            rid = f"spill-{q}/L1-{lim}-{tp}"
+            cfg = dict(name="L1", partitions=tp, batch_rows=512, memory_limit=lim, norows=True,
+                       settings=[[contract.TP, str(tp)], [contract.BS, "512"], ["datafusion.execution.sort_spill_reservation_bytes", "16384"],
+                                 ["datafusion.execution.sort_in_place_threshold_bytes", "0"], [contract.OPT + "prefer_hash_join", phj]])
+            lines.append({"id": rid, "sql": sql, "tables": spilldb, "cfg": cfg})
+            meta[rid] = {"case": None, "cfg": "L1", "sql": sql, "src": "spill-queries", "tables": spilldb}
+    contract.matrix_runs(ctx, lines, meta, thorough=not ctx.quick)
     for l in lines:
-        l["cfg"] = dict(l["cfg"], analyze=True)
+        l["cfg"] = dict(l["cfg"], analyze="EXPLAIN" not in l["sql"] and not l["sql"].startswith("INSERT"))
     runs, summary = contract.record(ctx, lines)
     sp_out = ctx.path("spill.ndjson")
     run_harness(ctx, "vcontract", ["spill", "--out", sp_out, "--n", 150 if ctx.quick else 2000])
@@ -98,8 +125,9 @@ def run(ctx):
     pseudo = attach(runs, spill)
     for p in pseudo:
         meta[p["id"]] = {"sql": "(spill API history)", "tables": [], "cfg": "A1", "case": None, "src": "spill-api"}
-    res = contract.judge(ctx, "C53", runs + pseudo, meta)
+    res = contract.judge(ctx, "C53", runs + pseudo, meta, known_key=known_key)
     ok = [r for r in runs if r["status"] == "ok"]
+    judged_ops = contract.require_operators(ok, contract.REQUIRED_OPERATORS)
     per_op = collections.Counter()
     nometric = collections.Counter()
     notfull = 0
@@ -112,7 +140,10 @@ def run(ctx):
             else:
                 nometric[n["name"]] += 1
     spilled = [(r["id"], n["name"], n["metrics"]["spilled"], n["metrics"]["spills"]) for r in ok for n in r["nodes"] if n["metrics"]["spills"] > 0]
-    inconsistent = [x for x in spilled if x[2] <= 0]
+    spilled_ops = collections.Counter(x[1] for x in spilled)
+    missing_spill = [o for o in ("SortExec", "AggregateExec") if not spilled_ops.get(o)]
+    if missing_spill and not ctx.replay:
+        raise ToolError(f"vacuity: operators that never spilled under the bounded memory pool: {missing_spill}")
     an_nodes = sum(1 for r in ok for a in r["analyze"] if a["full"] and a["has"])
     nontrivial = {r["plan"] + meta[r["id"]]["cfg"] for r in ok if any(n["full"] and n["metrics"]["has"] and n["metrics"]["rows"] > 0 for n in r["nodes"])}
     sample = next((r for r in ok if any(n["metrics"]["spills"] > 0 for n in r["nodes"])), ok[0])
@@ -123,13 +154,14 @@ def run(ctx):
         "samples": [{"sql": meta[sample["id"]]["sql"], "cfg": meta[sample["id"]]["cfg"], "plan": sample["plan"][:1500],
                      "nodes": [{"op": n["detail"][:100], "output_rows": n["metrics"]["rows"], "emitted": sum(b["n"] for s in n["streams"] for b in s["batches"]),
                                 "consumed_in_full": n["full"], "spilled_rows": n["metrics"]["spilled"]} for n in sample["nodes"]][:8]}],
-        "configurations": cfgs, "operator_coverage": contract.coverage(ok),
+        "configurations": cfgs + sorted({c for f in contract.FAMILIES.values() for c in f[1]}), "operator_coverage": contract.coverage(ok),
+        "operators_judged_output_consumed_in_full": judged_ops, "operator_types_not_reached": contract.NOT_REACHED,
         "nodes_judged_by_operator": dict(sorted(per_op.items())), "nodes_not_consumed_in_full": notfull,
         "nodes_without_output_rows_metric": dict(nometric),
         "explain_analyze_nodes_judged": an_nodes,
         "spill_api_histories": len(spill), "spill_api_files": sum(len(h["files"]) for h in spill),
-        "query_nodes_that_spilled": len(spilled), "query_spill_samples": spilled[:5],
-        "query_nodes_with_spill_count_but_no_spilled_rows": len(inconsistent),
+        "query_nodes_that_spilled": len(spilled), "operators_that_spilled": dict(spilled_ops), "query_spill_samples": spilled[:5],
+        "spill_paths_not_observed": {"NestedLoopJoinExec memory-limited fallback": "the planner puts the small input on the buffered side; no spill metric was ever registered by NLJ in 24 bounded-memory trials"},
         "sources": dict(collections.Counter(meta[r["id"]]["src"] for r in ok)),
         "tlc_generated_cases": sum(t.distinct for t in tlcruns), **res,
     }, assumptions=[
